@@ -10,7 +10,7 @@ from typing import Optional
 from vf.engine import Ctx, Failure
 from vf.harness.common import bounds_of, get_aliaser, method_classes, self_of, tree_state
 from vf.oracle.deser import Opts, RefDeser, classify, message_kinds
-from vf.specs import F, Sp, build, obj, opt
+from vf.specs import F, Sp, build, obj, opt, static_alias
 from vf.pools import INT, STR, V, Fy
 
 HEADER = "LOG = []\nfrom apischema.objects import get_alias\n"
@@ -64,11 +64,15 @@ PROGRAMS = {
         [F("a", INT), F("b", INT, default=V("0"), alias="bb")],
         vsrc("v1", "self.b > 3", deco="@validator('b')")
         + vsrc("v2", "self.b < -3")
-        + vsrc("v3", "self.a > 3"),
+        + vsrc("v3", "self.a > 3")
+        + vsrc("v4", "self.a < -3", deco="@validator('a')")
+        + vsrc("v5", "self.a == 7", "yield", path="get_alias(self).b"),
         [
             dict(name="v1", deps={"b"}, field="b", discard={"b"}, fail=lambda v: v["b"] > 3, errs=[(("bb",), "v1")]),
             dict(name="v2", deps={"b"}, fail=lambda v: v["b"] < -3, errs=[((), "v2")]),
             dict(name="v3", deps={"a"}, fail=lambda v: v["a"] > 3, errs=[((), "v3")]),
+            dict(name="v4", deps={"a"}, field="a", discard={"a"}, fail=lambda v: v["a"] < -3, errs=[(("a",), "v4")]),
+            dict(name="v5", deps={"a"}, fail=lambda v: v["a"] == 7, errs=[(("bb",), "v5")]),
         ],
     ),
     # explicit discard of a field the failing validator does not read
@@ -169,7 +173,7 @@ class Inst:
         """reference: which validators run, in order, and which errors they produce"""
         spec = self.P["spec"]
         al = self.opts.aliaser
-        ext = {f.name: al(f.ext) for f in spec.a}
+        ext = {f.name: al(static_alias(spec, f)) for f in spec.a}
         err_locs = {loc[0] for loc, _ in struct_errs if loc}
         provided = {f.name for f in spec.a if ext[f.name] in d and ext[f.name] not in err_locs}
         invalid = {f.name for f in spec.a if ext[f.name] in err_locs}
@@ -190,7 +194,7 @@ class Inst:
             if v["fail"](values):
                 for loc, msg in v["errs"]:
                     # aliases yielded through get_alias() are relocated to the external name
-                    static = {f.ext for f in spec.a if f.alias is not None}
+                    static = {static_alias(spec, f) for f in spec.a if f.alias is not None}
                     loc = tuple(al(x) if isinstance(x, str) and x in static else x for x in loc)
                     if v.get("field"):
                         loc = (ext[v["field"]],)
